@@ -915,6 +915,19 @@ def lift_one(d, repo, canary=False, rename_suffix=None):
         body.insert(1, '\n    let %s = %s;' % (pname, newname))
         info['rules']['R10'] = info['rules'].get('R10', 0) + 1
 
+    # R13 `mut self` by-value receiver (not accepted by this Verus): `fn f(mut self, ..) { body }` becomes
+    # `fn f(self, ..) { let mut verif_self = self; body[self := verif_self] }` -- Rust's own meaning of `mut self`;
+    # in the woven contract `self` names the argument as passed
+    mm = re.search(r'\(\s*mut\s+self\b', sig_l.s)
+    if mm:
+        a_ = sig_l.s.index('mut', mm.start())
+        sig_l.replace(a_, a_ + len('mut') + (1 if sig_l.s[a_ + 3] == ' ' else 0), '')
+        offs = [m_.start() for m_ in code_finditer(body.s, body.k, r'(?<![A-Za-z0-9_])self(?![A-Za-z0-9_])')]
+        for p_ in reversed(offs):
+            body.replace(p_, p_ + 4, 'verif_self', keep_origin=True)
+        body.insert(1, '\n    let mut verif_self = self;')
+        info['rules']['R13'] = 1
+
     if 'arm' in h:
         # append the fall-through value before the closing brace
         body.insert(len(body.s) - 1, '    Flow::Next\n    ')
